@@ -1130,7 +1130,13 @@ impl UntypedExpr {
                     return Err(errors);
                 }
 
-                let mut elem_ty = typed_fields.first().unwrap().ty.clone();
+                let Some(first_field) = typed_fields.first() else {
+                    // (an empty array literal `[]` where no array of size 0 is expected, see
+                    // `Literal::parse`: reported as a mismatch with the expected type)
+                    let ty = Type::Array(Box::new(Type::Tuple(vec![])), 0);
+                    return Ok(Expr::typed(ExprEnum::ArrayLiteral(vec![]), ty, meta));
+                };
+                let mut elem_ty = first_field.ty.clone();
                 if elem_ty == Type::Unsigned(UnsignedNumType::Unspecified) {
                     if let Some(expr) = typed_fields.iter().find(|expr| expr.ty != elem_ty) {
                         elem_ty = expr.ty.clone();
